@@ -39,10 +39,30 @@ type optset struct {
 
 func optsets() []optset {
 	redirect := func(isManifest bool, desc ociregistry.Descriptor) ([]string, error) {
-		if isManifest {
-			return nil, nil
+		// "no other location" is said both ways a Go function can say it (nil, and an empty list - what a
+		// filter over mirrors leaves when none qualifies); content elsewhere has one or two locations
+		h := 0
+		for _, ch := range []byte(desc.Digest) {
+			h = h*31 + int(ch)
 		}
-		return []string{"https://cdn.example/blobs/" + string(desc.Digest)}, nil
+		if h < 0 {
+			h = -h
+		}
+		if isManifest {
+			if h%2 == 0 {
+				return nil, nil
+			}
+			return []string{}, nil
+		}
+		switch h % 4 {
+		case 0:
+			return nil, nil
+		case 1:
+			return make([]string, 0, 4), nil
+		case 2:
+			return []string{"https://cdn.example/blobs/" + string(desc.Digest)}, nil
+		}
+		return []string{"https://cdn.example/blobs/" + string(desc.Digest), "https://mirror.example/b/" + string(desc.Digest)}, nil
 	}
 	return []optset{
 		{name: "nil-options"},
